@@ -1,9 +1,12 @@
 package simrt
 
 import (
+	"bufio"
 	"crypto/tls"
 	"fmt"
+	"io"
 	"net"
+	"os"
 	"reflect"
 	"sort"
 	"sync"
@@ -223,4 +226,64 @@ func SyncMapRange(m *sync.Map, f func(key, value interface{}) bool) {
 func ZeroOut(p interface{}) {
 	v := reflect.ValueOf(p).Elem()
 	v.Set(reflect.Zero(v.Type()))
+}
+
+// ---- slow storage and slow streams ----------------------------------------------------------------------------
+
+// ioStall is the seam for "slow or stalled disk": in runs that enable it (Config.IOStall) a tape-chosen fraction of the
+// tool's file and stream operations is preceded by a stall on the simulated clock. It never draws from the tape otherwise.
+func ioStall(site string) {
+	s := current()
+	if s == nil || s.Cfg.IOStall <= 0 {
+		return
+	}
+	// at most 12 stalls per run: the fault is a slow device, not one that takes hours (byte-wise readers issue
+	// thousands of operations)
+	if s.ioStalls >= 12 {
+		return
+	}
+	if s.T.Chance(s.Cfg.IOStall) {
+		if t := s.self(); t == nil || t.killed {
+			return
+		}
+		s.ioStalls++
+		d := time.Duration(50+s.T.Choose(2950)) * time.Millisecond
+		s.Fault("io_stall")
+		Sleep(d, "io-stall@"+site)
+	}
+}
+
+func IORead(r io.Reader, p []byte, site string) (int, error) {
+	ioStall(site)
+	return r.Read(p)
+}
+
+func BufioFlush(w *bufio.Writer, site string) error {
+	ioStall(site)
+	return w.Flush()
+}
+
+func BufioWriteString(w *bufio.Writer, str string, site string) (int, error) {
+	ioStall(site)
+	return w.WriteString(str)
+}
+
+func BufioWrite(w *bufio.Writer, b []byte, site string) (int, error) {
+	ioStall(site)
+	return w.Write(b)
+}
+
+func FileRead(f *os.File, b []byte, site string) (int, error) {
+	ioStall(site)
+	return f.Read(b)
+}
+
+func FileWrite(f *os.File, b []byte, site string) (int, error) {
+	ioStall(site)
+	return f.Write(b)
+}
+
+func FileWriteString(f *os.File, str string, site string) (int, error) {
+	ioStall(site)
+	return f.WriteString(str)
 }
